@@ -955,11 +955,11 @@ fn make_mutant(
         // ---- header stage
         0 => (v.as_advanced_builder().number(h + 1).build(), "number+1"),
         1 => (v.as_advanced_builder().number(h - 1).build(), "number-1"),
-        2 => (v.as_advanced_builder().epoch(EpochNumberWithFraction::new_unchecked(ep.number(), ep.length(), ep.length())).build(), "epoch-index=length"),
-        3 => (v.as_advanced_builder().epoch(EpochNumberWithFraction::new_unchecked(ep.number(), 0, 0)).build(), "epoch-length-0"),
+        2 => (edit_raw(v, |r| r.epoch(Into::<packed::Uint64>::into(EpochNumberWithFraction::new_unchecked(ep.number(), ep.length(), ep.length()).full_value()))), "epoch-index=length"),
+        3 => (edit_raw(v, |r| r.epoch(Into::<packed::Uint64>::into(EpochNumberWithFraction::new_unchecked(ep.number(), 0, 0).full_value()))), "epoch-length-0"),
         4 => (v.as_advanced_builder().epoch(EpochNumberWithFraction::new_unchecked(ep.number(), (ep.index() + 1) % ep.length().max(1), ep.length())).build(), "epoch-index+1"),
-        5 => (v.as_advanced_builder().epoch(EpochNumberWithFraction::new_unchecked(ep.number() + 1, ep.index(), ep.length())).build(), "epoch-number+1"),
-        6 => (v.as_advanced_builder().epoch(EpochNumberWithFraction::new_unchecked(ep.number(), ep.index(), ep.length() + 1)).build(), "epoch-length+1"),
+        5 => (edit_raw(v, |r| r.epoch(Into::<packed::Uint64>::into(EpochNumberWithFraction::new_unchecked(ep.number() + 1, ep.index(), ep.length()).full_value()))), "epoch-number+1"),
+        6 => (edit_raw(v, |r| r.epoch(Into::<packed::Uint64>::into(EpochNumberWithFraction::new_unchecked(ep.number(), ep.index(), ep.length() + 1).full_value()))), "epoch-length+1"),
         // ---- non-contextual
         7 => {
             let mut props: Vec<ProposalShortId> = v.data().proposals().into_iter().collect();
